@@ -249,6 +249,10 @@ func (bc *builtCorpus) mainSource() string {
 			}
 		}
 		walk(g.Schema.Messages, "")
+		for _, x := range g.Schema.FileExt {
+			fmt.Fprintf(&b, "\t\t\t{Name: %q, Num: %d, Kind: %q, Extendee: %q, Desc: %s.E_%s},\n", x.Name, x.Num, x.Kind,
+				strings.TrimPrefix(x.Card, "ext:"), alias(g), camel(x.Name))
+		}
 		b.WriteString("\t\t}},\n")
 	}
 	b.WriteString("\t})\n}\n")
